@@ -180,6 +180,12 @@ class Check:
             if not ok:
                 allok = False
                 self.broken.append(f"theorem {n}: axioms {sorted(ax) if ax is not None else 'unknown'}")
+        if self.tier == "thorough":
+            # independent re-check of the compiled modules by the toolchain's external checker
+            rc, out = lake(["env", "leanchecker", *mods])
+            ok = rc == 0 and "uncaught exception" not in out and "error" not in out.lower()
+            self.obligation(f"leanchecker re-check of {', '.join(mods)}", ok, out[-600:] if not ok else "accepted")
+            allok = allok and ok
         return allok
 
     def obligation(self, name: str, ok: bool, detail: str = ""):
